@@ -210,6 +210,7 @@ func judgeLimitCase(c limitCase, rec *hx.Rec) string {
 const c11Rule = "rapid draws core, limits (75% with a limit below M, 25% R=W=M), pc and 1..3 steps; oracles that do not reuse the reference folding: (1) every cell that differs after RunCycle is within circular distance floor(W/2) of pc, (2) every queued successor other than pc+1/pc+2 is within floor(R/2), (3) metamorphic far-cell irrelevance: replacing a cell farther than max(floor(R/2),floor(W/2)) from pc by an arbitrary instruction leaves successors and every other cell identical and the cell itself untouched, (4) for R=W=M the step equals the reference step with limits ignored. Non-trivial: a limit below M and a non-immediate operand whose unfolded pointer lies outside it, or an R=W=M differential case; distinct by case hash."
 
 func TestC11(t *testing.T) {
+	hugeBits = 6 // C11's cases are cheap: afford more of the very large cores
 	hx.Run(t, hx.Prop[limitCase]{
 		ID: "C11", Sub: "limits", Rule: c11Rule, Checks: hx.Scale(30000, 16000000),
 		Gen: genLimitCase, Judge: judgeLimitCase,
